@@ -545,8 +545,10 @@ class Builder:
             m = sorted(macros, key=lambda m: m.name)[node[1] % len(macros)]
             t, out = self.call(m, node[2], 0, None, 1, 0, cx.deeper(), int_context=True)
             if cx.live:
-                if not re.fullmatch(r'\d+', out or ''):
-                    raise OutOfDomain('macro output is not a non-negative integer')
+                if not re.fullmatch(r'0|[1-9]\d*', out or ''):
+                    # (a zero-padded number such as '010' is accepted as a parameter on its own but not inside an
+                    # arithmetic expression; the documentation says nothing about leading zeros: not asserted)
+                    raise OutOfDomain('macro output is not a plain non-negative integer')
                 return t, int(out), 'atom'
             return t, None, 'atom'
         raise ValueError('unknown expression node %r' % (node,))
